@@ -9,6 +9,18 @@ func init() {
 			"pruning primitive, which deletes whatever it is given, only ever receives child positions or positions on the false edge of a root test (R09b).",
 		NotDecided: "truth of stored hashes through moves, minimality of the stored set, provability of the cache, Prune removing exactly what no other leaf needs — " +
 			"all depend on position arithmetic over runtime values; this is a thin claim.",
-		Rules: []RuleDef{{ID: "R09", Statement: "guards of the partial forest", Run: runC09}},
+		Rules: []RuleDef{{ID: "R09", Statement: "guards of the partial forest", Run: runC09},
+			{ID: "R09c", Statement: "coordinate switch last", Run: func(p *Program, r *Report) {
+				r.Rule("R09c", "COORD-SWITCH-LAST: a function that switches the map forest's TotalRows finishes every translation from the old TotalRows before the store (remembered leaves keep true positions when the forest grows)")
+				checkCoordSwitch(p, r, "R09c")
+			}},
+			{ID: "R09d", Statement: "prune clears the keep flag", Run: func(p *Program, r *Report) {
+				r.Rule("R09d", "PRUNE-CLEARS-FLAG: after Prune removed a leaf from the cache index, every continuing path stores its node back with the keep flag cleared")
+				checkPruneClearsFlag(p, r, "R09d")
+			}},
+			{ID: "R09e", Statement: "moves keep the node", Run: func(p *Program, r *Report) {
+				r.Rule("R09e", "MOVE-PAIRING: where a node read from the node store is deleted at its old position and put at a new one, the put happens on every path that deletes")
+				checkMovePairing(p, r, "R09e")
+			}}},
 	})
 }
